@@ -398,7 +398,7 @@ def execute(desc, ctx):
 
 
 SUBS = [
-    Sub('sndscript_roundtrip', execute, strategy=strategy, fixed=fixed, quick=1200, thorough=15000, floor=150, quick_shards=8,
+    Sub('sndscript_roundtrip', execute, strategy=strategy, fixed=fixed, quick=1000, thorough=15000, floor=150, quick_shards=8,
         must_hit=('level:range', 'pitch:range', 'volume:range', 'level:range_mixed', 'pitch:single_enum',
                   'level:single_num', 'volume:single_num', 'channel:enum', 'channel:int', 'channel:int_negative',
                   'waves:0', 'waves:1', 'waves:many', 'stacks', 'stack_nested_block', 'force_v2_no_stacks',
